@@ -689,6 +689,15 @@ func (c *gen) nestedRecover() (*Expr, bool) {
 	if c.chance(40, "thirditem") {
 		alts = append(alts, item(Pick(c.t, []string{lo, li, "G2", "F3"}, "thirdlabel")))
 	}
+	if c.cfg.Preds && c.chance(40, "predthrowitem") {
+		// a throw under a lookahead: the handlers in force outside the predicate are in force
+		// inside it ( !( t %{l} ) u  /  &( t %{l} ) u )
+		pk := KNot
+		if c.chance(40, "predthrowand") {
+			pk = KAnd
+		}
+		alts = append(alts, &Expr{K: KSeq, Sub: []*Expr{{K: pk, Sub: []*Expr{{K: KSeq, Sub: []*Expr{c.consuming(), {K: KThrow, Name: Pick(c.t, []string{lo, li}, "predthrowlabel")}}}}}, c.consuming()}})
+	}
 	alts = append(alts, c.consuming())
 	if c.chance(50, "itemorder") {
 		alts[0], alts[1] = alts[1], alts[0]
